@@ -7,9 +7,11 @@ import random
 from typing import Any
 
 from streamflow.core.workflow import Status, Token
-from streamflow.cwl.step import CWLLoopOutputAllStep, CWLLoopOutputLastStep
-from streamflow.workflow.combinator import LoopCombinator
-from streamflow.workflow.step import LoopCombinatorStep
+from streamflow.cwl.step import CWLLoopConditionalStep, CWLLoopOutputAllStep, CWLLoopOutputLastStep
+from streamflow.cwl.transformer import ForwardTransformer
+from streamflow.workflow.combinator import LoopCombinator, LoopTerminationCombinator
+from streamflow.workflow.executor import StreamFlowExecutor
+from streamflow.workflow.step import CombinatorStep, LoopCombinatorStep, Transformer
 from streamflow.workflow.token import IterationTerminationToken, ListToken, TerminationToken
 
 from sfv.framework import Ctx, Property
@@ -21,6 +23,75 @@ from sfv.translate import loopguards
 COUNTS = [0, 1, 2, 9, 10, 11, 12, 15]
 STATUSES = ["COMPLETED", "SKIPPED", "FAILED", "CANCELLED", "RECOVERED"]
 PREFIXES = ["0", "0.0", "0.1", "0.2", "0.9", "0.10", "0.11", "0.3.1"]
+
+
+class _When(CWLLoopConditionalStep):
+    """the production loop conditional step (its _on_true / _on_false are the real code); only the evaluation of the
+    CWL `when` expression is replaced by the Python predicate counter < limit (no JavaScript engine in the loop)"""
+
+    async def _eval(self, inputs):
+        return inputs["counter"].value < inputs["limit"].value
+
+
+class _Body(Transformer):
+    """loop body: counter -> counter + 1, val -> "<instance>:<iteration index>" (tags preserved, as any job step does)"""
+
+    async def transform(self, inputs):
+        c = inputs["counter"]
+        return {"counter": c.update(c.value + 1), "val": inputs["val"].update(f"{'.'.join(c.tag.split('.')[:-1])}:{c.value}")}
+
+
+def build_loop(wf, method: str):
+    """the loop network as the CWL translator / tests.utils.workflow.RecoveryTranslator wire it:
+    input forwarders -> LoopCombinatorStep -> loop-when -> body -> output forwarder -> {loop output step, back-propagation};
+    loop-when --skip--> loop output step; loop output -> loop terminator (LoopTerminationCombinator) -> combinator inputs"""
+    names = ["counter", "limit", "val"]
+    ext_in = {n: wf.create_port() for n in names}
+    comb = LoopCombinator(workflow=wf, name="/l-loop-combinator")
+    fwd = {}
+    for n in names:
+        f = wf.create_step(cls=ForwardTransformer, name=f"/l/{n}-input-forward-transformer")
+        f.add_input_port(n, ext_in[n])
+        fwd[n] = wf.create_port()
+        f.add_output_port(n, fwd[n])
+        comb.add_item(n)
+    cstep = wf.create_step(cls=LoopCombinatorStep, name="/l-loop-combinator", combinator=comb)
+    for n in names:
+        cstep.add_input_port(n, fwd[n])
+        cstep.add_output_port(n, wf.create_port())
+    when = wf.create_step(cls=_When, name="/l-loop-when", expression="")
+    cond_out = {}
+    for n in names:
+        when.add_input_port(n, cstep.get_output_port(n))
+        cond_out[n] = wf.create_port()
+        when.add_output_port(n, cond_out[n])
+    body = wf.create_step(cls=_Body, name="/l")
+    body.add_input_port("counter", cond_out["counter"])
+    body.add_input_port("val", cond_out["val"])
+    body.add_output_port("counter", wf.create_port())
+    body.add_output_port("val", wf.create_port())
+    loop_ports = {"counter": body.get_output_port("counter"), "limit": cond_out["limit"], "val": body.get_output_port("val")}
+    term_comb = LoopTerminationCombinator(workflow=wf, name="/l-loop-termination-combinator")
+    term_step = wf.create_step(cls=CombinatorStep, name="/l-loop-terminator", combinator=term_comb)
+    for n, port in cstep.get_input_ports().items():
+        term_step.add_output_port(n, port)
+        term_comb.add_output_item(n)
+    of = wf.create_step(cls=ForwardTransformer, name="/l/val-output-forward-transformer")
+    of.add_input_port("val", loop_ports["val"])
+    of.add_output_port("val", wf.create_port())
+    internal = dict(loop_ports)
+    internal["val"] = of.get_output_port("val")
+    out_step = wf.create_step(cls=CWLLoopOutputAllStep if method == "all" else CWLLoopOutputLastStep, name="/l/val-loop-output")
+    out_step.add_input_port("val", of.get_output_port("val"))
+    when.add_skip_port("val", of.get_output_port("val"))
+    out_step.add_output_port("val", wf.create_port())
+    term_step.add_input_port("val", out_step.get_output_port("val"))
+    term_comb.add_item("val")
+    for n in names:
+        b = wf.create_step(cls=ForwardTransformer, name=f"/l/{n}-back-propagation-transformer")
+        b.add_input_port(n, internal[n])
+        b.add_output_port(n, cstep.get_input_port(n))
+    return ext_in, cstep, out_step
 
 
 def events_of(instances: list[dict]) -> list[list]:
@@ -135,6 +206,13 @@ class C06(Property):
             if "0" in ps and k > 1:
                 ps.remove("0")
             yield {"op": "number", "instances": [{"p": p, "n": rng.choice([1, 2, 3, 10, 11, 12, 16])} for p in ps], "ports": rng.choice([1, 1, 2]),
+                   "oseed": rng.randrange(1 << 30)}
+        # ---- the whole loop network run by the real executor (scatter instances around the loop, different counts) ----
+        for i in range(36 if wide else 10):
+            k = rng.randint(1, 4)
+            ps = ["0"] if (k == 1 and rng.random() < 0.5) else rng.sample(PREFIXES[1:7], k)
+            pool = [0, 1, 2, 3, 10, 11, 12] if i % 3 == 0 else [0, 1, 2, 3, 4]
+            yield {"op": "network", "method": rng.choice(["all", "last"]), "instances": [{"p": p, "n": rng.choice(pool)} for p in ps],
                    "oseed": rng.randrange(1 << 30)}
         # ---- LoopCombinatorStep: when does it stop reading a port ----
         for _ in range(120 if wide else 30):
@@ -300,6 +378,88 @@ class C06(Property):
         self._lines.append("number " + " ".join(joins))
         self._expect.append((" ".join(outs) or "-", case))
         ctx.case({"case": case, "joins": joins[:8], "outs": outs[:8]}, ("number", tuple(joins)), "number")
+
+    # --------------------------------------------------------------------------------------------
+    async def _network(self, ctx: Ctx, context, case: dict) -> None:
+        """the complete loop (real LoopCombinatorStep, production loop-when, loop output step, loop terminator, forwarders) run by the
+        real StreamFlowExecutor under the shuffling event loop; one set of external inputs per instance, tagged like scatter elements"""
+        self._n += 1
+        rng = random.Random(case["oseed"])
+        wf = sd.new_workflow(context, f"c06w-{self._n}")
+        ext_in, cstep, out_step = build_loop(wf, case["method"])
+        await wf.save(context.database)
+        insts = list(case["instances"])
+        rng.shuffle(insts)
+        for name in ("counter", "limit", "val"):
+            order = list(insts)
+            rng.shuffle(order)
+            for i in order:
+                tok = Token(value={"counter": 0, "limit": i["n"], "val": "init"}[name], tag=i["p"])
+                await tok.save(context.database, ext_in[name].persistent_id)
+                ext_in[name].put(tok)
+            ext_in[name].put(TerminationToken())
+        try:
+            await asyncio.wait_for(StreamFlowExecutor(wf).run(), 60)
+        except asyncio.TimeoutError:
+            live = [st.name for st in wf.steps.values() if not st.terminated]
+            ctx.fail("network:hang", f"the loop network did not terminate; steps still running: {live}", case)
+            return
+        out = list(out_step.get_output_port("val").token_list)
+        # the property, end to end
+        if not out or not isinstance(out[-1], TerminationToken):
+            ctx.fail("network:termination", f"loop output port does not end with a termination token: {[sd.untoken(t) for t in out][-3:]}", case)
+            return
+        by_tag: dict = {}
+        for t in out[:-1]:
+            by_tag.setdefault(t.tag, []).append(t)
+        for i in case["instances"]:
+            p, n = i["p"], i["n"]
+            got = by_tag.pop(p, [])
+            vals = [f"{p}:{k}" for k in range(n)]
+            exp = ["L", p, [["T", f"{p}.{k}", v] for k, v in enumerate(vals)]] if case["method"] == "all" else ["T", p, vals[-1] if vals else None]
+            if len(got) != 1:
+                ctx.fail("network:never-emitted" if not got else "network:emitted-more-than-once",
+                         f"{len(got)} loop outputs for instance {p} ({n} iterations)", case)
+            elif sd.untoken(got[0]) != exp:
+                ctx.fail(f"network:{case['method']}:wrong-output" + (":count>=11" if n >= 11 else ""),
+                         f"instance {p} ({n} iterations): got {sd.untoken(got[0])!r:.300}, expected {exp!r:.300}", case)
+        if by_tag:
+            ctx.fail("network:unexpected-output", f"loop outputs with unexpected tags {sorted(by_tag)}", case)
+        # numbering observed on the combinator's output port: instance p's executions are p.0, p.1, … in order
+        seen: dict = {}
+        for t in cstep.get_output_port("counter").token_list:
+            if isinstance(t, TerminationToken):
+                continue
+            p, k = t.tag.rsplit(".", 1)
+            if int(k) != seen.get(p, 0):
+                ctx.fail("network:numbering", f"instance {p}: execution tagged {t.tag} after {seen.get(p, 0)} executions", case)
+            seen[p] = seen.get(p, 0) + 1
+        for i in case["instances"]:
+            if seen.get(i["p"], 0) != i["n"] + 1:
+                ctx.fail("network:iterations", f"instance {i['p']}: {seen.get(i['p'], 0)} condition evaluations for {i['n']} iterations", case)
+        # the arrival order the engine really produced at the loop output step goes to the Lean model
+        ids, words = {}, []
+        in_port = out_step.get_input_port("val")
+        for t in in_port.token_list:
+            if isinstance(t, TerminationToken):
+                words.append(f"t:{t.value.name}")
+                break           # the step stops reading here (later termination tokens of other writers are never taken)
+            if isinstance(t, IterationTerminationToken):
+                words.append(f"i:{t.tag}")
+            else:
+                ids[id(t)] = len(ids)
+                words.append(f"d:{t.tag}:{ids[id(t)]}")
+        self._lines.append(f"loopout {case['method']} " + " ".join(words))
+        parts = []
+        for t in out[:-1]:
+            if isinstance(t, ListToken):
+                parts.append(f"{t.tag}[" + ",".join(f"{e.tag}:{ids.get(id(e), '?')}" for e in t.value) + "]")
+            else:
+                src = [k for tok, k in ((x, ids[id(x)]) for x in in_port.token_list if id(x) in ids) if tok.value == t.value and t.value is not None]
+                parts.append(f"{t.tag}=" + ("None" if t.value is None else str(src[0]) if src else "?"))
+        self._expect.append(((";".join(parts) or "-") + "|term=" + out[-1].value.name, case))
+        ctx.case({"case": case, "arrival": words[:12], "out": [sd.untoken(t) for t in out][:3]},
+                 ("network", case["method"], tuple(words)), "network")
 
     # --------------------------------------------------------------------------------------------
     async def _checklist(self, ctx: Ctx, context, case: dict) -> None:
